@@ -1,5 +1,6 @@
 """C11 bounded native harness: ledger tables against a direct traversal of the Beancount directives."""
 import datetime
+import beanquery
 from decimal import Decimal
 
 from beancount.core import data, position, convert, getters
@@ -137,12 +138,57 @@ def check_ledger(res, name, src):
             res.violation('h11:commodity_meta', 'commodity_meta looks up the commodity metadata', {'ledger': name, 'currency': cur}, got, (e.meta.get('name'), None))
 
 
+def tables_stable(res, name, src):
+    """the accounts table shows the accounts of the ledger whatever lookups were evaluated before or are evaluated during its scan"""
+    entries, _, _ = ledger.load(src)
+    oc = getters.get_account_open_close(entries)
+    conn = ledger.connect(src)
+    want = sorted((a, o.date if o else None, c.date if c else None) for a, (o, c) in oc.items())
+    steps = ['SELECT open_date("Assets:Nosuch"), close_date("Income:Nosuch:Deeper"), open_meta("Liabilities:Nosuch", "x") FROM #accounts LIMIT 1',
+             "SELECT account, open_date(parent(account)), open_meta(parent(account), 'rank'), close_date(root(account, 1)) FROM #accounts",
+             "SELECT open_date(account), open_date(parent(account)) FROM #postings"]
+    for step in steps:
+        res.case((name, 'accounts-stable', step[:50]))
+        try:
+            conn.execute(step).fetchall()
+        except Exception as e:  # noqa
+            res.violation('h11:accounts-stable:lookup-fails', 'lookups of accounts without open directive are NULL and leave the tables alone', {'ledger': name, 'query': step}, f'{type(e).__name__}: {e}', 'rows')
+        got = sorted(tuple(r) for r in conn.execute('SELECT account, open.date, close.date FROM #accounts').fetchall())
+        n = conn.execute('SELECT count(*) FROM #accounts').fetchall()[0][0]
+        if got != want or n != len(want):
+            res.violation('h11:accounts-stable', 'the accounts table yields exactly the accounts of the ledger, whatever was looked up before', {'ledger': name, 'after': step},
+                          (n, [g for g in got if g not in want][:3]), len(want))
+            break
+
+
+def synthetic(res):
+    """directives built programmatically (importers, plugins): postings that are equal as tuples, metadata included, are still
+    different postings"""
+    import datetime as _dt
+    from decimal import Decimal as _D
+    from beancount.core import amount as _amount
+    entries, errors, options = ledger.load(ledger.LEDGER_A)
+    legs = [data.Posting('Expenses:Coffee', _amount.Amount(_D('3'), 'USD'), None, None, None, None),
+            data.Posting('Expenses:Coffee', _amount.Amount(_D('3'), 'USD'), None, None, None, None),
+            data.Posting('Assets:Bank:Checking', _amount.Amount(_D('-6'), 'USD'), None, None, None, None)]
+    txn = data.Transaction({'filename': '<synthetic>', 'lineno': 1}, _dt.date(2020, 3, 1), '*', 'Cafe', 'two equal legs', frozenset(), frozenset(), legs)
+    conn = beanquery.connect('beancount:', entries=list(entries) + [txn], errors=[], options=options)
+    res.case(('synthetic', 'other_accounts'))
+    got = conn.execute("SELECT account, other_accounts, number FROM #postings WHERE narration = 'two equal legs'").fetchall()
+    want = [(p.account, sorted({q.account for q in legs if q is not p}), p.units.number) for p in legs]
+    if [(r[0], sorted(r[1]), r[2]) for r in got] != want:
+        res.violation('h11:synthetic:other_accounts', 'other_accounts lists the accounts of the other postings of the transaction (postings are told apart by identity, not by value)',
+                      {'transaction': 'two equal Expenses:Coffee legs built without metadata'}, got, want)
+
+
 def run(tier, seed):
     res = Result('ledgers A (all directive types, tags, links, metadata on entries and postings, pad-generated postings without metadata, costs, prices, '
                  'closed accounts, commodities with metadata) and B (multi-currency, lots); every column of every table vs a direct traversal; '
                  'metadata functions for present / missing keys; distinct = (ledger, table, column)')
     check_ledger(res, 'A', ledger.LEDGER_A)
     check_ledger(res, 'B', ledger.LEDGER_B)
+    tables_stable(res, 'A', ledger.LEDGER_A)
+    synthetic(res)
     return res.asdict()
 
 
